@@ -632,6 +632,16 @@ func (ck *Check) master(tier string, seed int64, evidence, replays, known string
 				}
 			}
 			if rep != want {
+				// The harness is deterministic by construction (no clocks, no randomness, fresh inputs per case), so a
+				// failure that reproduces in SOME fresh processes comes from nondeterminism inside the library under
+				// test (sync.Pool reuse, goroutine scheduling, map iteration). Two or more reproductions out of the
+				// re-runs are reported as an intermittent violation; fewer are not believed.
+				if rep >= 2 {
+					fmt.Printf("VIOLATION property=%s replay=%s\n", ck.Property, path)
+					fmt.Printf("  domain=%s index=%d key=%s (INTERMITTENT: reproduced %d/%d times in fresh processes)\n", f.Domain, f.Index, f.Key, rep, want)
+					printed++
+					continue
+				}
 				fmt.Fprintf(os.Stderr, "INFRASTRUCTURE: failure %s/%d key=%s reproduced only %d/%d times; not reported as a violation\n", f.Domain, f.Index, f.Key, rep, want)
 				return 2
 			}
